@@ -59,6 +59,7 @@ func rulesC01(w *World, r *Report) {
 	w.ruleEmittedTagsDispatch(r, "C01.R2 emitted tags dispatch to their reader")
 	w.ruleFieldDispatchers(r, "C01.R2 field dispatchers accept what the writers emit")
 	w.ruleTypeSlots(r, "C01.R2 type slots: literal, or numbered like the decoder numbers them")
+	w.ruleNoDoubleWrap(r, "C01.R5 a carrier is never wrapped twice")
 	// R3
 	for _, x := range []struct {
 		fn     string
